@@ -16,6 +16,10 @@
  *                                          -> OK st=<s0,s1,..> sinkfail=<0|1> n=<bytes> fnv=<hash> calls=<n> wops=<n>
  *   abort <spec> <owns> <step> <tmp>       run the history up to <step>, then carquet_writer_abort
  *                                          -> OK exists=<0|1> leak=<0|1>
+ *   wmisc <tmp>                            C18: writer entry states the history does not reach: create on a path that
+ *                                          cannot be opened (NULL + error record, no file), options == NULL on both
+ *                                          create variants (defaults; the file written must open), write_batch with a
+ *                                          column index out of range (error, writer still usable)
  *   read <mode> <script> <path>            C04: open + API call sequence on a (mutated) file
  *                                          -> OK/ERR/FAULT ...
  *   longerr <len> <path>                   C04: error records built from long caller-supplied text: unopenable paths
@@ -447,12 +451,63 @@ static const parquet_schema_element_t* leaf_elem(carquet_reader_t* r, int col) {
     return &s->elements[idx];
 }
 
+
+/* Everything the API offers on an error record / status / enum value that came out of an untrusted file:
+ * strings must be terminated, carquet_error_format must stay inside the buffer it is given. */
+static int g_errfmt_bad = 0;
+static void ex_error_record(const carquet_error_t* e) {
+    static const size_t sizes[] = {1, 2, 9, 40, 100, 300, 1200};
+    for (size_t i = 0; i < sizeof(sizes) / sizeof(sizes[0]); i++) {
+        char* buf = malloc(sizes[i]);
+        memset(buf, 'x', sizes[i]);
+        int w = carquet_error_format(e, buf, sizes[i]);
+        if (w < 0 || (size_t)w >= sizes[i] + (sizes[i] == 0) || !memchr(buf, 0, sizes[i])) g_errfmt_bad++;
+        free(buf);
+    }
+    carquet_error_t c2; carquet_error_init(&c2);
+    carquet_error_copy(&c2, e);
+    carquet_error_set_context(&c2, 12345, 1, 2);
+    char big[2048];
+    (void)carquet_error_format(&c2, big, sizeof(big));
+    touch(big, strlen(big));
+    carquet_error_clear(&c2);
+    const char* h = carquet_error_recovery_hint(e->code);
+    if (h) touch(h, strlen(h));
+    (void)carquet_error_is_recoverable(e->code);
+    const char* ss = carquet_status_string(e->code);
+    touch(ss, strlen(ss));
+}
+static void ex_enum_names(int v) {
+    const char* a = carquet_physical_type_name((carquet_physical_type_t)v); touch(a, strlen(a));
+    const char* b = carquet_compression_name((carquet_compression_t)v); touch(b, strlen(b));
+    const char* c = carquet_encoding_name((carquet_encoding_t)v); touch(c, strlen(c));
+    const char* d = carquet_status_string((carquet_status_t)v); touch(d, strlen(d));
+    const char* h = carquet_error_recovery_hint((carquet_status_t)v); if (h) touch(h, strlen(h));
+    (void)carquet_error_is_recoverable((carquet_status_t)v);
+}
+
 static void ex_metadata(carquet_reader_t* r, stats_t* st) {
     int64_t nr = carquet_reader_num_rows(r);
     int32_t nrg = carquet_reader_num_row_groups(r);
     int32_t nc = carquet_reader_num_columns(r);
-    (void)nr;
+    g_touch += (uint64_t)nr;
     st->calls += 3;
+    g_touch += (uint64_t)carquet_reader_is_mmap(r);
+    { int ma, mi, pa; carquet_version_components(&ma, &mi, &pa); const char* v = carquet_version(); touch(v, strlen(v)); }
+    for (int v = -3; v <= 20; v++) ex_enum_names(v);
+    for (int v = 21; v <= 90; v++) { const char* d = carquet_status_string((carquet_status_t)v); touch(d, strlen(d));
+                                     const char* h = carquet_error_recovery_hint((carquet_status_t)v); if (h) touch(h, strlen(h));
+                                     (void)carquet_error_is_recoverable((carquet_status_t)v); }
+    ex_enum_names(INT32_MAX); ex_enum_names(INT32_MIN);
+    /* names of the enum values the file itself carries (untrusted ints) */
+    for (int32_t g = 0; g < r->metadata.num_row_groups && g < 8; g++) {
+        const parquet_row_group_t* rg = &r->metadata.row_groups[g];
+        for (int32_t c = 0; c < rg->num_columns && c < 32; c++) {
+            const parquet_column_metadata_t* cm = &rg->columns[c].metadata;
+            ex_enum_names((int)cm->type); ex_enum_names((int)cm->codec);
+            for (int32_t k = 0; k < cm->num_encodings && k < 8; k++) ex_enum_names((int)cm->encodings[k]);
+        }
+    }
     const carquet_schema_t* s = carquet_reader_schema(r);
     if (s) {
         int32_t ne = carquet_schema_num_elements(s);
@@ -463,9 +518,11 @@ static void ex_metadata(carquet_reader_t* r, stats_t* st) {
             if (!nd) continue;
             const char* nm = carquet_schema_node_name(nd);
             if (nm) touch(nm, strlen(nm));
-            (void)carquet_schema_node_physical_type(nd);
-            (void)carquet_schema_node_type_length(nd);
-            (void)carquet_schema_node_repetition(nd);
+            ex_enum_names((int)carquet_schema_node_physical_type(nd));
+            g_touch += (uint64_t)carquet_schema_node_type_length(nd) + (uint64_t)carquet_schema_node_repetition(nd)
+                     + (uint64_t)carquet_schema_node_is_leaf(nd) + (uint64_t)carquet_schema_node_max_def_level(nd)
+                     + (uint64_t)carquet_schema_node_max_rep_level(nd);
+            (void)carquet_schema_node_logical_type(nd);
         }
     }
     int32_t probes[] = {-1, 0, nrg - 1, nrg, nrg + 1, INT32_MAX, INT32_MIN};
@@ -486,7 +543,9 @@ static void ex_metadata(carquet_reader_t* r, stats_t* st) {
             carquet_column_reader_t* c = carquet_reader_get_column(r, probes[k], cprobes[j], &e);
             st->calls++;
             if (c) { BAD(st, 3); carquet_column_reader_free(c); }
-            else { if (!err_ok(&e)) BAD(st, 4); note_err(st, (int)e.code); }
+            else { if (!err_ok(&e)) BAD(st, 4); note_err(st, (int)e.code); if (k == 0 && j == 0) ex_error_record(&e); }
+            if (carquet_reader_can_zero_copy(r, probes[k], cprobes[j])) BAD(st, 16);     /* out of range: never */
+            g_touch += (uint64_t)carquet_reader_can_zero_copy(r, 0, (int32_t)j);
             (void)rg_in;
         }
         {   /* no error record: must still be NULL for an out-of-range index, without a crash */
@@ -580,7 +639,8 @@ static void ex_batch(carquet_reader_t* r, long batch_size, int proj, stats_t* st
     } else if (proj == 4) { idx[0] = nc + 3; cfg.column_indices = idx; cfg.num_columns = 1; nproj = 1; pmap[0] = -1; }
     if (nc > 256) return;
     carquet_error_t e = CARQUET_ERROR_INIT;
-    carquet_batch_reader_t* br = carquet_batch_reader_create(r, &cfg, &e);
+    if (proj == 5) batch_size = 65536;          /* the default configuration (config == NULL): 64K rows, all threads */
+    carquet_batch_reader_t* br = carquet_batch_reader_create(r, proj == 5 ? NULL : &cfg, &e);
     st->calls++;
     if (!br) { if (!err_ok(&e)) BAD(st, 10); note_err(st, (int)e.code); return; }
     long iters = 0, idle = 0;
@@ -674,6 +734,9 @@ static void run_forked(case_fn fn, void* ctx, int cpu_limit_s, int wall_limit_s,
         int leak = __lsan_do_recoverable_leak_check();
         fprintf(out, " leak=%d", leak ? 1 : 0);
         fflush(out);
+#ifdef VERIF_COV
+        { extern void __gcov_dump(void); __gcov_dump(); }      /* coverage audit: the worker leaves through _exit */
+#endif
         _exit(leak ? 23 : 0);
     }
     close(pfd[1]);
@@ -929,6 +992,46 @@ static void abort_child(void* vctx, FILE* out) {
     if (exists && !closed) unlink(cx->tmp);
 }
 
+/* ------------------------------------------------------------------------------------------ C18: writer entry states */
+
+typedef struct { const char* tmp; } wmisc_ctx;
+
+static void wmisc_child(void* vctx, FILE* out) {
+    wmisc_ctx* cx = (wmisc_ctx*)vctx;
+    int bad = 0;
+    spec_t sp = {'a', 0, 5, 1, 7};
+    carquet_schema_t* s = make_schema(&sp);
+    {   /* a path that cannot be opened */
+        carquet_error_t e = CARQUET_ERROR_INIT;
+        carquet_writer_t* w = carquet_writer_create("/nonexis/dir/x.parquet", s, NULL, &e);
+        if (w) { bad |= 1; carquet_writer_abort(w); } else if (!err_ok(&e)) bad |= 2;
+        w = carquet_writer_create("/nonexis/dir/x.parquet", s, NULL, NULL);          /* no error record */
+        if (w) { bad |= 1; carquet_writer_abort(w); }
+    }
+    for (int owns = 0; owns < 2; owns++) {   /* options == NULL; an out-of-range column index in between */
+        carquet_error_t e = CARQUET_ERROR_INIT;
+        carquet_writer_t* w; FILE* f = NULL;
+        unlink(cx->tmp);
+        if (owns) w = carquet_writer_create(cx->tmp, s, NULL, &e);
+        else { f = fopen(cx->tmp, "wb"); w = carquet_writer_create_file(f, s, NULL, &e); }
+        if (!w) { bad |= 4; if (f) fclose(f); continue; }
+        int32_t v[1] = {1};
+        if (carquet_writer_write_batch(w, -1, v, 1, NULL, NULL) == CARQUET_OK) bad |= 8;
+        if (carquet_writer_write_batch(w, 2, v, 1, NULL, NULL) == CARQUET_OK) bad |= 8;
+        if (carquet_writer_write_batch(w, INT32_MAX, v, 1, NULL, NULL) == CARQUET_OK) bad |= 8;
+        int st[MAX_STEPS], closed;
+        int n = run_history(w, &sp, -1, 0, st, &closed);
+        for (int i = 0; i < n; i++) if (st[i] != CARQUET_OK) bad |= 16;
+        if (f) fclose(f);
+        carquet_error_t oe = CARQUET_ERROR_INIT;
+        carquet_reader_t* r = carquet_reader_open(cx->tmp, NULL, &oe);
+        if (!r) bad |= 32; else { if (carquet_reader_num_rows(r) != 5) bad |= 64; carquet_reader_close(r); }
+        unlink(cx->tmp);
+    }
+    carquet_schema_free(s);
+    fprintf(out, "%s bad=%d", bad ? "BADERR" : "OK", bad);
+}
+
 /* ------------------------------------------------------------------------------------------ C04: read */
 
 typedef struct { int mode; const char* script; const char* path; } read_ctx;
@@ -951,6 +1054,8 @@ static void read_child(void* vctx, FILE* out) {
     if ((r != NULL) != (ok_noerr != 0)) { fprintf(out, "BADERR conventions-disagree noerr=%d err=%d ", ok_noerr, r != NULL); }
     free(data);
     if (!r) {
+        ex_error_record(&e);
+        if (g_errfmt_bad) fprintf(out, "BADERR error-format ");
         fprintf(out, "%s open=%d", err_ok(&e) ? "ERR" : "BADERR", (int)e.code);
         free(keep);
         return;
@@ -961,6 +1066,7 @@ static void read_child(void* vctx, FILE* out) {
     if (g_prog) g_prog->a = 3;
     carquet_reader_close(r);
     free(keep);
+    if (g_errfmt_bad) { st.badcode++; if (!st.badsite) st.badsite = 17; }
     fprintf(out, "%s open=0 calls=%ld errs=%ld first=%d values=%ld okcols=%ld badcode=%ld badsite=%d livelock=%ld",
             st.badcode ? "BADERR" : (st.livelock ? "LIVELOCK" : "OK"), st.calls, st.errs, st.first_err, st.values,
             st.okcols, st.badcode, st.badsite, st.livelock);
@@ -973,21 +1079,34 @@ extern carquet_status_t carquet_read_next_page(carquet_column_reader_t* reader, 
                                                int16_t* def_levels, int16_t* rep_levels, int64_t* values_read,
                                                int64_t* non_null_read, carquet_error_t* error);
 
-/* the page-header parser's verdict on the window a load at `off` can see */
-static void hdr_oracle(FILE* out, const char* tag, const uint8_t* file, size_t n, int64_t off) {
-    if (off < 0 || (uint64_t)off >= n) { fprintf(out, " %s=none", tag); return; }
-    size_t avail = n - (size_t)off;
+/* the page-header parser's verdicts on the windows a load at `off` may try: 256 bytes, then x8 while more bytes
+ * are available, up to 16 MiB (every window clamped to the bytes available).  Printed as len@verdict|len@verdict..;
+ * returns 1 and the header of the first window that parses. */
+static int hdr_oracle(FILE* out, const char* tag, const uint8_t* file, size_t n, int64_t off,
+                      size_t* hs_out, parquet_page_header_t* h_out) {
+    if (off < 0 || (uint64_t)off >= n) { fprintf(out, " %s=none", tag); return 0; }
+    size_t avail = n - (size_t)off, wmax = (size_t)16 << 20;
     size_t w = avail < 256 ? avail : 256;
-    uint8_t* copy = malloc(w ? w : 1);
-    memcpy(copy, file + off, w);
-    parquet_page_header_t h; size_t hs = 0;
-    carquet_error_t e = CARQUET_ERROR_INIT;
-    carquet_status_t st = parquet_parse_page_header(copy, w, &h, &hs, &e);
-    free(copy);
-    if (st != CARQUET_OK) { fprintf(out, " %s=%d", tag, (int)st); return; }
-    fprintf(out, " %s=0/%zu/%d/%d/%d/%d/%d/%d/%d", tag, hs, (int)h.type, (int)h.uncompressed_page_size,
-            (int)h.compressed_page_size, h.has_crc ? 1 : 0, (int)h.data_page_header.num_values,
-            (int)h.data_page_header.encoding, (int)h.dictionary_page_header.num_values);
+    fprintf(out, " %s=", tag);
+    int first = 1, found = 0;
+    for (;;) {
+        uint8_t* copy = malloc(w ? w : 1);
+        memcpy(copy, file + off, w);
+        parquet_page_header_t h; size_t hs = 0;
+        carquet_error_t e = CARQUET_ERROR_INIT;
+        carquet_status_t st = parquet_parse_page_header(copy, w, &h, &hs, &e);
+        free(copy);
+        if (st != CARQUET_OK) fprintf(out, "%s%zu@%d", first ? "" : "|", w, (int)st);
+        else fprintf(out, "%s%zu@0/%zu/%d/%d/%d/%d/%d/%d/%d", first ? "" : "|", w, hs, (int)h.type, (int)h.uncompressed_page_size,
+                     (int)h.compressed_page_size, h.has_crc ? 1 : 0, (int)h.data_page_header.num_values,
+                     (int)h.data_page_header.encoding, (int)h.dictionary_page_header.num_values);
+        first = 0;
+        if (st == CARQUET_OK) { found = 1; if (hs_out) *hs_out = hs; if (h_out) *h_out = h; break; }
+        if (!(w < avail && w < wmax)) break;
+        w = (w * 8 < wmax) ? w * 8 : wmax;
+        if (w > avail) w = avail;
+    }
+    return found;
 }
 
 typedef struct { int mode; const char* path; } probe_ctx;
@@ -1040,30 +1159,14 @@ static void probe_child(void* vctx, FILE* out) {
                     (int)col->max_def_level, (int)col->max_rep_level, cm->has_dictionary_page_offset ? 1 : 0,
                     (long long)cm->dictionary_page_offset, (long long)cm->data_page_offset);
             /* header oracles: first stage, and the data page that follows a dictionary page */
-            if (cm->has_dictionary_page_offset) {
-                hdr_oracle(out, "H1", data, n, cm->dictionary_page_offset);
-                int64_t off = cm->dictionary_page_offset;
-                if (off >= 0 && (uint64_t)off < n) {
-                    size_t avail = n - (size_t)off, w = avail < 256 ? avail : 256;
-                    uint8_t* copy = malloc(w ? w : 1); memcpy(copy, data + off, w);
-                    parquet_page_header_t h; size_t hs = 0; carquet_error_t pe = CARQUET_ERROR_INIT;
-                    if (parquet_parse_page_header(copy, w, &h, &hs, &pe) == CARQUET_OK)
-                        hdr_oracle(out, "H2", data, n, off + (int64_t)hs + h.compressed_page_size);
-                    free(copy);
-                }
-            } else {
-                hdr_oracle(out, "H1", data, n, cm->data_page_offset);
-                /* a dictionary page found where the data pages start is loaded as the dictionary: the data
-                 * page that follows it is the second stage */
-                int64_t off = cm->data_page_offset;
-                if (off >= 0 && (uint64_t)off < n) {
-                    size_t avail = n - (size_t)off, w = avail < 256 ? avail : 256;
-                    uint8_t* copy = malloc(w ? w : 1); memcpy(copy, data + off, w);
-                    parquet_page_header_t h; size_t hs = 0; carquet_error_t pe = CARQUET_ERROR_INIT;
-                    if (parquet_parse_page_header(copy, w, &h, &hs, &pe) == CARQUET_OK && h.type == CARQUET_PAGE_DICTIONARY)
-                        hdr_oracle(out, "H2", data, n, off + (int64_t)hs + h.compressed_page_size);
-                    free(copy);
-                }
+            {
+                /* header oracles: first stage, and the data page that follows a dictionary page (announced by
+                 * dictionary_page_offset, or found where the data pages start) */
+                size_t hs = 0; parquet_page_header_t h;
+                int64_t off1 = cm->has_dictionary_page_offset ? cm->dictionary_page_offset : cm->data_page_offset;
+                int ok1 = hdr_oracle(out, "H1", data, n, off1, &hs, &h);
+                if (ok1 && (cm->has_dictionary_page_offset || h.type == CARQUET_PAGE_DICTIONARY))
+                    (void)hdr_oracle(out, "H2", data, n, off1 + (int64_t)hs + h.compressed_page_size, NULL, NULL);
             }
             uint8_t dummy[16]; int64_t nread = 0, nn = 0;
             carquet_error_t le = CARQUET_ERROR_INIT;
@@ -1111,6 +1214,15 @@ static void longerr_child(void* vctx, FILE* out) {
         carquet_schema_free(s);
     }
     free(path);
+    for (int mode = 0; mode < 2; mode++) {        /* a directory is not a file: error, on both path-based routes */
+        carquet_reader_options_t o; carquet_reader_options_init(&o);
+        o.use_mmap = mode == 1;
+        carquet_error_t e = CARQUET_ERROR_INIT;
+        carquet_reader_t* r = carquet_reader_open("/verif/harness", &o, &e);
+        calls++;
+        if (r) { bad++; carquet_reader_close(r); } else { if (!err_ok(&e)) bad++; ex_error_record(&e); }
+    }
+    if (g_errfmt_bad) bad++;
     /* projection by a name of len characters, on a valid file, through all three open paths */
     size_t n = 0; uint8_t* data = read_file(cx->path, &n);
     char* name = malloc((size_t)len + 1);
@@ -1142,7 +1254,11 @@ static void longerr_child(void* vctx, FILE* out) {
 static int cpu_budget(const char* path) {
     struct stat sb;
     long n = stat(path, &sb) == 0 ? (long)sb.st_size : 0;
+#ifdef VERIF_COV
+    return 5 * (2 + (int)(n >> 18));       /* coverage audit: the instrumented build is several times slower */
+#else
     return 2 + (int)(n >> 18);
+#endif
 }
 
 /* ------------------------------------------------------------------------------------------ main */
@@ -1176,6 +1292,10 @@ int main(void) {
         } else if (!strcmp(op, "read") && h_ntok == 4) {
             read_ctx cx = {atoi(h_tok[1]), h_tok[2], h_tok[3]};
             run_forked(read_child, &cx, cpu_budget(h_tok[3]), 20, res, sizeof(res));
+            puts(res);
+        } else if (!strcmp(op, "wmisc") && h_ntok == 2) {
+            wmisc_ctx cx = {h_tok[1]};
+            run_forked(wmisc_child, &cx, 10, 30, res, sizeof(res));
             puts(res);
         } else if (!strcmp(op, "longerr") && h_ntok == 3) {
             longerr_ctx cx = {atoi(h_tok[1]), h_tok[2]};
